@@ -342,12 +342,13 @@ func Utf8TieExtra() core.Extra {
 				for b0 := 0xf0; b0 <= 0xf4; b0++ {
 					add(fmt.Sprintf("dec %d %d 0 255 all bnd", b0, b0), 65536*len(tieBnd))
 				}
-				for b0 := 0; b0 < 256; b0 += 16 {
+				for b0 := 0xc0; b0 < 256; b0 += 16 {
 					add(fmt.Sprintf("dec %d %d 0 255 bnd bnd", b0, b0+15), 16*256*len(tieBnd)*len(tieBnd))
 				}
-				scope = "every input of length 0..2, every 3-byte input with b0 >= C0 (b2 in an 18-value boundary set below), every 4-byte input with leader F0..F4 and b3 in the boundary set, every 4-byte input with b2,b3 in the boundary set"
+				add("dec 0 191 0 255 bnd none", 192*256*len(tieBnd))
+				scope = "every input of length 0..2, every 3-byte input with b0 >= C0 (b2 in an 18-value boundary set below), every 4-byte input with leader F0..F4 and b3 in the boundary set, every 4-byte input with b0 >= C0 and b2,b3 in the boundary set"
 			}
-			nstr := 4000
+			nstr := 2000
 			if ctx.Tier == "thorough" {
 				nstr = 100000
 			}
